@@ -190,7 +190,7 @@ func sig(v ssa.Value, depth int, seen map[ssa.Value]bool) string {
 			// helper's failure exits are not what the caller goes on to use
 			var live []ssa.Value
 			for _, e := range edges {
-				if c, isC := e.(*ssa.Const); isC && (c.Value == nil || isZeroConst(c)) {
+				if c, isC := e.(*ssa.Const); isC && c.Value == nil {
 					continue
 				}
 				live = append(live, e)
@@ -230,53 +230,117 @@ type CondFact struct {
 
 // DomConds lists the branch conditions that hold on entry to block b because b is reachable
 // only through that edge (walks the dominator tree).
+//
+// Result variables of expanded helpers (inline.go) are threaded: the tests of such variables
+// met on the way up restrict which incoming edges of the block that merges them (the label
+// after the expansion) are compatible; when exactly one is left, the walk continues from that
+// predecessor - the conditions inside the helper that led to that exit hold here - and the
+// tests of the variables themselves are not reported.
 func DomConds(b *ssa.BasicBlock) []CondFact {
 	var out []CondFact
-	next := func(d *ssa.BasicBlock) *ssa.BasicBlock { return d.Idom() }
+	compat := map[*ssa.BasicBlock]map[int]bool{} // merge block -> indices of compatible predecessors
+	restrict := func(iff *ssa.If, taken bool) bool {
+		// taken: the true edge of iff was followed
+		var phi *ssa.Phi
+		var want func(e ssa.Value, pred *ssa.BasicBlock) int // 1 compatible, 0 not, 2 unknown
+		if nv, trueMeansNil, isNil := NilCheck(iff.Cond); isNil {
+			p, isPhi := nv.(*ssa.Phi)
+			if !isPhi || !IsExpansionTemp(p) {
+				return false
+			}
+			phi = p
+			wantNil := taken == trueMeansNil
+			want = func(e ssa.Value, pred *ssa.BasicBlock) int {
+				switch nilness(e, pred) {
+				case 1:
+					if wantNil {
+						return 1
+					}
+					return 0
+				case 2:
+					if wantNil {
+						return 0
+					}
+					return 1
+				}
+				return 2
+			}
+		} else {
+			v, neg := BoolCond(iff.Cond)
+			p, isPhi := v.(*ssa.Phi)
+			if !isPhi || !IsExpansionTemp(p) {
+				return false
+			}
+			phi = p
+			wantTrue := taken != neg
+			want = func(e ssa.Value, pred *ssa.BasicBlock) int {
+				if cst, isC := e.(*ssa.Const); isC && cst.Value != nil {
+					if (cst.Value.String() == "true") == wantTrue {
+						return 1
+					}
+					return 0
+				}
+				return 2
+			}
+		}
+		q := phi.Block()
+		if !q.Dominates(iff.Block()) {
+			return false
+		}
+		set, have := compat[q]
+		if !have {
+			set = map[int]bool{}
+			for i, p := range q.Preds {
+				if q.Dominates(p) {
+					return false // merged around a loop: not threaded
+				}
+				set[i] = true
+			}
+			compat[q] = set
+		}
+		for i, e := range phi.Edges {
+			if set[i] && want(e, q.Preds[i]) == 0 {
+				delete(set, i)
+			}
+		}
+		return true
+	}
+	factOf := func(iff *ssa.If, trueEdge bool) {
+		if restrict(iff, trueEdge) {
+			return
+		}
+		taken := trueEdge
+		v, neg := BoolCond(iff.Cond)
+		if neg {
+			taken = !taken
+		}
+		out = append(out, CondFact{If: iff, Taken: taken, Sig: Sig(v)})
+	}
 	steps := 0
-	for d := b; d != nil && steps < 4*len(b.Parent().Blocks)+8; d = next(d) {
+	limit := 4*len(b.Parent().Blocks) + 8
+	d := b
+	for d != nil && steps < limit {
 		steps++
-		next = func(d *ssa.BasicBlock) *ssa.BasicBlock { return d.Idom() }
+		// threading: d merges result variables and only one predecessor is compatible with the
+		// tests met below
+		if set, have := compat[d]; have && len(set) == 1 {
+			delete(compat, d)
+			for i := range set {
+				p := d.Preds[i]
+				if iff, ok := lastIf(p); ok && len(p.Succs) == 2 && p.Succs[0] != p.Succs[1] {
+					factOf(iff, p.Succs[0] == d)
+				}
+				d = p
+			}
+			continue
+		}
 		id := d.Idom()
 		if id == nil {
 			break
 		}
-		// jump threading: d is entered only through one edge of id, id branches on a phi it
-		// defines, and only one predecessor of id can deliver the value for that edge: the
-		// walk continues from that predecessor (its own dominating conditions hold here)
-		if len(d.Preds) == 1 && d.Preds[0] == id && len(id.Succs) == 2 && id.Succs[0] != id.Succs[1] {
-			si := 1
-			if id.Succs[0] == d {
-				si = 0
-			}
-			if p := solePredFor(id, si); p != nil && len(id.Preds) > 1 && branchesOnExpansionTemp(id) {
-				if iff, ok := lastIf(id); ok {
-					taken := si == 0
-					v, neg := BoolCond(iff.Cond)
-					if neg {
-						taken = !taken
-					}
-					out = append(out, CondFact{If: iff, Taken: taken, Sig: Sig(v)})
-				}
-				// facts of the edge p -> id itself
-				if iff, ok := lastIf(p); ok && len(p.Succs) == 2 && p.Succs[0] != p.Succs[1] {
-					taken := p.Succs[0] == id
-					v, neg := BoolCond(iff.Cond)
-					if neg {
-						taken = !taken
-					}
-					out = append(out, CondFact{If: iff, Taken: taken, Sig: Sig(v)})
-				}
-				pp := p
-				next = func(*ssa.BasicBlock) *ssa.BasicBlock { return pp }
-				continue
-			}
-		}
-		if len(id.Instrs) == 0 {
-			continue
-		}
-		iff, ok := id.Instrs[len(id.Instrs)-1].(*ssa.If)
-		if !ok {
+		iff, ok := lastIf(id)
+		if !ok || len(id.Succs) != 2 || id.Succs[0] == id.Succs[1] {
+			d = id
 			continue
 		}
 		// d must be entered only from id, through exactly one of the two edges
@@ -300,26 +364,14 @@ func DomConds(b *ssa.BasicBlock) []CondFact {
 				}
 				via = s
 			}
-			if !okAll || via == nil || id.Succs[0] == id.Succs[1] {
-				continue
+			if okAll && via != nil {
+				factOf(iff, via == id.Succs[0])
 			}
-			taken := via == id.Succs[0]
-			v, neg := BoolCond(iff.Cond)
-			if neg {
-				taken = !taken
-			}
-			out = append(out, CondFact{If: iff, Taken: taken, Sig: Sig(v)})
+			d = id
 			continue
 		}
-		if id.Succs[0] == id.Succs[1] {
-			continue
-		}
-		taken := id.Succs[0] == d
-		v, neg := BoolCond(iff.Cond)
-		if neg {
-			taken = !taken
-		}
-		out = append(out, CondFact{If: iff, Taken: taken, Sig: Sig(v)})
+		factOf(iff, id.Succs[0] == d)
+		d = id
 	}
 	// outermost first
 	for i, j := 0, len(out)-1; i < j; i, j = i+1, j-1 {
